@@ -30,7 +30,93 @@ def config(tier):
     }
 
 
+def gen_dotdot_case(rng, index, tier):
+    """the volume is named through '<symlink>/..': the kernel goes to the
+    parent of the link's TARGET (y/v1, whose .Trash is sticky); the lexical
+    reading lands on x/v1, whose .Trash is NOT sticky and holds canaries.
+    Rule and reading must concern the same directory"""
+    L = gen.make_layout(rng, volumes=[], xdg='unset', top_states={},
+                        alt_states={}, trash_volumes_env=False, uid=rng.choice([0, 1000]))
+    uid = L.uid
+    L.add({'p': 'y/sub', 't': 'd'})
+    L.add({'p': 'x', 't': 'd'})
+    L.add({'p': 'x/lk', 't': 'l', 'to': '@/y/sub'})
+    L.add({'p': 'y/v1/.Trash', 't': 'd', 'm': 0o1777})
+    L.add({'p': 'x/v1/.Trash', 't': 'd', 'm': rng.choice([0o777, 0o755, 0o2777])})
+    secure, canaries = [], []
+    for i in range(rng.randint(1, 3)):
+        secure.append(trashgen.add_trashed(
+            L, rng, 'y/v1/.Trash/%d' % uid, 'good%d' % i, 'y/v1/docs/good-%d' % i,
+            '2001-02-03T04:05:0%d' % i, rng.choice(['file', 'tree']),
+            'sec%d_%d' % (index, i), volume_rel='y/v1'))
+        canaries.append(trashgen.add_trashed(
+            L, rng, 'x/v1/.Trash/%d' % uid, 'canary%d' % i, 'x/v1/docs/canary-%d' % i,
+            '2001-02-03T04:05:0%d' % i, rng.choice(['file', 'tree']),
+            'can%d_%d' % (index, i), volume_rel='x/v1'))
+    L.env['TRASH_VOLUMES'] = '@/x/lk/../v1'
+    L.cwd = L.home
+    case = L.desc()
+    case['kind'] = 'dotdot-volume'
+    case['cmd'] = rng.choice(['list', 'empty', 'empty-days', 'rm', 'empty-dry'])
+    case['secure'] = secure
+    case['canaries'] = canaries
+    return case
+
+
+def run_dotdot(case):
+    out = {'violations': [], 'obs': {}, 'features': ['dotdot-volume', 'cmd:' + case['cmd']]}
+    obs = out['obs']
+    cmd = case['cmd']
+    with world.World(case) as w:
+        s0 = w.snapshot()
+        argv = {'list': ('list', []), 'empty': ('empty', []),
+                'empty-days': ('empty', ['1']), 'rm': ('rm', ['*']),
+                'empty-dry': ('empty', ['--dry-run'])}[cmd]
+        r = run.run(w, argv[0], argv[1], stdin=b'')
+        s1 = w.snapshot()
+        if r.timeout or r.audit_ok() is False:
+            out['verdict'] = 'inconclusive'
+            out['why'] = 'watchdog' if r.timeout else 'audit mismatch'
+            return out
+        obs['insecure_cmd_runs'] = 1
+        obs['dotdot_volume_runs'] = 1
+        text = r.outtext() + r.errtext()
+        for c in case['canaries']:
+            obs['canary_subtrees_compared'] = obs.get('canary_subtrees_compared', 0) + 1
+            if trashworld.entry_state(s0, s1, c) != 'intact':
+                out['violations'].append({
+                    'mechanism': 'insecure-trash-modified/dotdot-volume/' + cmd,
+                    'detail': {'run': r.brief(), 'canary': c['name']}})
+                break
+            if 'canary-' in r.outtext():
+                out['violations'].append({
+                    'mechanism': 'insecure-trash-content-shown/dotdot-volume/' + cmd,
+                    'detail': {'run': r.brief()}})
+                break
+        # the directory the kernel resolves the name to is secure: it is used
+        for e in case['secure']:
+            st = trashworld.entry_state(s0, s1, e)
+            if cmd in ('empty', 'empty-days', 'rm') and st != 'gone':
+                out['violations'].append({
+                    'mechanism': 'secure-trash-not-used/dotdot-volume/' + cmd,
+                    'detail': {'run': r.brief(), 'entry': e['name'], 'state': st}})
+                break
+            if cmd in ('list', 'empty-dry') and ('good' not in r.outtext()):
+                out['violations'].append({
+                    'mechanism': 'secure-trash-not-used/dotdot-volume/' + cmd,
+                    'detail': {'run': r.brief()}})
+                break
+        else:
+            obs['secure_used'] = 1
+            obs['secure_cmd_runs'] = 1
+    out['nontrivial'] = True
+    out['verdict'] = 'violation' if out['violations'] else 'ok'
+    return out
+
+
 def gen_case(rng, index, tier):
+    if index % 25 == 13:
+        return gen_dotdot_case(rng, index, tier)
     vols = rng.choice([['v1'], ['v1'], ['v1', 'v2'], ['v1', 'v1/nested']])
     state = rng.choice(STATES)
     tv = rng.choice(vols + ([''] if rng.random() < 0.2 else []))
@@ -174,6 +260,8 @@ def toggle_case(case, w, out):
 
 
 def run_case(case):
+    if case.get('kind') == 'dotdot-volume':
+        return run_dotdot(case)
     out = {'violations': [], 'obs': {}, 'features': []}
     obs = out['obs']
     state = case['state']
